@@ -446,13 +446,27 @@ def install_models(M):
     X['vp_assume'] = assume; X['vp_assert'] = vassert; X['vp_reach'] = reach; X['vp_log'] = vlog; X['vp_scenario'] = scenario
 
     # ---- boost::asio::io_context: FIFO of scheduler_operation* ------------------------------------------
+    CALL_STACK_TOP = '_ZN5boost4asio6detail15keyword_tss_ptrINS1_10call_stackINS1_14thread_contextENS1_16thread_info_baseEE7contextEE6value_E'
     def run_op(op, owner):
         ec = malloc(24); M.memset(ec, 0, 24)
         fn = ld(op, 8)
         if not isinstance(fn, Fn): raise Violation('memory', 'scheduler operation with invalid func_')
+        # like scheduler::do_poll_one: while the handler runs, the scheduler is on asio's per-thread call stack
+        # (a thread_local pointer to a list of {key, value, next} frames), so executor::dispatch() from inside a
+        # handler runs the function inline (running_in_this_thread)
+        tkey = None; frame = None
+        if CALL_STACK_TOP in M.gid and not isnull(owner):
+            tkey = Ptr(M.gid[CALL_STACK_TOP], 0)
+            prev = ld(tkey, 0)
+            frame = malloc(24 + 64); M.memset(frame, 0, 24 + 64)
+            st(frame, 0, owner); st(frame, 8, P(frame, 24)); st(frame, 16, prev)
+            st(tkey, 0, frame)
         try:
             M.call(fn.name, [owner, op, ec, 0])
         finally:
+            if tkey is not None:
+                st(tkey, 0, prev)
+                if M.objs[frame.obj].alive: free(frame)
             if M.objs[ec.obj].alive: free(ec)
     def ioc_ctor(selfp, hint=None):
         impl = malloc(512); M.memset(impl, 0, 512)
